@@ -3,6 +3,7 @@ import NavisModel.Drv.Forest
 import NavisModel.Drv.C20
 import NavisModel.Drv.Prune
 import NavisModel.Drv.C08
+import NavisModel.Drv.C19
 /-! `navisdrv`: one request per line on stdin (`<prop>.<cmd> <payload>`), one answer per line on stdout. -/
 open Navis
 
@@ -13,6 +14,7 @@ def handle (head rest : String) : Option String :=
   | ["c20", cmd] => Drv.C20.run cmd rest
   | ["p", cmd] => Drv.Prune.run cmd rest
   | ["c08", cmd] => Drv.C08.run cmd rest
+  | ["c19", cmd] => Drv.C19.run cmd rest
   | ["ping"] => some "pong"
   | _ => none
 
